@@ -161,6 +161,14 @@ def check(run):
         one_case(run, specs, gamma, pts, npos, Z, 0.0, None, "types-%s-%s" % ("sph" if ta else "cart", "sph" if tb else "cart"))
         size_case(run, specs, None)
         run.count("coordinate types " + ("mixed" if ta != tb else ("spherical" if ta else "cartesian")) + " generalized")
+    from checks.common import zero_diag_symmetric
+    for n in range(2 if quick else 8):
+        specs = random_basis(rng, 1, 2, lmax=2, exp_hi=20.0, nprim=None)
+        nb = sum(s.size for s in specs)
+        t = random_transform(rng, nb, rect=True) if n % 2 == 0 else None
+        gamma = zero_diag_symmetric(rng, nb if t is None else t.shape[0])
+        npos = np.array([[0.5, -0.25, 1.0], [-1.0, 0.75, 0.25]])
+        one_case(run, specs, gamma, np.array([[0.1, 0.2, 0.3], [1.5, -1.0, 0.5]]), npos, np.array([1.0, 6.0]), 0.0, t, "zero-diagonal-gamma")
     representation_cases(run)
     # the witnesses of the repaired defects
     s = ShellSpec(0, [0, 0, 0], [1.0], [1.0])
